@@ -10,29 +10,36 @@
 EXTENDS Integers, Sequences, FiniteSets, Json, IOUtils, TLC
 
 Tr == ndJsonDeserialize(IOEnv.TRACE_FILE)
-VARIABLES i, ref, sharedRef, live, sharedNow
-tvars == <<i, ref, sharedRef, live, sharedNow>>
+VARIABLES i, ref, sharedRef, live, sharedNow, disk
+tvars == <<i, ref, sharedRef, live, sharedNow, disk>>
 E == Tr[i+1]
 Is(ev) == i < Len(Tr) /\ E.ev = ev /\ i' = i + 1
 Key(c, q) == <<c, q>>
 
-TInit == i = 0 /\ ref = [k \in {} |-> ""] /\ sharedRef = "" /\ live = [k \in {} |-> ""] /\ sharedNow = ""
+Paths == {"A", "B", "C"}
+TInit == i = 0 /\ ref = [k \in {} |-> ""] /\ sharedRef = "" /\ live = [k \in {} |-> ""] /\ sharedNow = "" /\ disk = [c \in Paths |-> c]
+\* inside a process every event is logged with the process's working directory: it must still be the one it started in
+Home == E.wd = "start"
 \* reference observations (fresh process, seed 0, empty working directory)
 TRef == Is("Ref") /\ Key(E.cfg, E.q) \notin DOMAIN ref
         /\ ref' = [k \in (DOMAIN ref) \cup {Key(E.cfg, E.q)} |-> IF k = Key(E.cfg, E.q) THEN E.digest ELSE ref[k]]
         /\ sharedRef' = (IF sharedRef = "" THEN E.shared ELSE sharedRef) /\ (sharedRef # "" => E.shared = sharedRef)
-        /\ UNCHANGED <<live, sharedNow>>
+        /\ UNCHANGED <<live, sharedNow, disk>>
 \* a new process starts: no calculators, the shared state is the reference one whatever the seed / directory
-TStart == Is("Start") /\ E.shared = sharedRef /\ live' = [k \in {} |-> ""] /\ sharedNow' = E.shared /\ UNCHANGED <<ref, sharedRef>>
-TConstruct == Is("Construct") /\ E.id \notin DOMAIN live
-              /\ live' = [k \in (DOMAIN live) \cup {E.id} |-> IF k = E.id THEN E.cfg ELSE live[k]]
-              /\ E.shared = sharedNow /\ UNCHANGED <<ref, sharedRef, sharedNow>>
+TStart == Is("Start") /\ E.shared = sharedRef /\ live' = [k \in {} |-> ""] /\ sharedNow' = E.shared /\ disk' = [c \in Paths |-> c]
+          /\ UNCHANGED <<ref, sharedRef>>
+\* the calculator constructed from path E.cfg is the data set that path holds now (Lifecycle!Construct)
+TConstruct == Is("Construct") /\ E.id \notin DOMAIN live /\ Home
+              /\ live' = [k \in (DOMAIN live) \cup {E.id} |-> IF k = E.id THEN disk[E.cfg] ELSE live[k]]
+              /\ E.shared = sharedNow /\ UNCHANGED <<ref, sharedRef, sharedNow, disk>>
+TRewrite == Is("Rewrite") /\ Home /\ disk' = [disk EXCEPT ![E.path] = E.data] /\ E.shared = sharedNow
+            /\ UNCHANGED <<ref, sharedRef, live, sharedNow>>
 \* any observation equals the reference observation of the calculator's configuration; shared state untouched
-TObserve == Is("Observe") /\ E.id \in DOMAIN live
+TObserve == Is("Observe") /\ E.id \in DOMAIN live /\ Home
             /\ Key(live[E.id], E.q) \in DOMAIN ref /\ E.digest = ref[Key(live[E.id], E.q)]
             /\ E.shared = sharedNow
-            /\ UNCHANGED <<ref, sharedRef, live, sharedNow>>
-TNext == TRef \/ TStart \/ TConstruct \/ TObserve
+            /\ UNCHANGED <<ref, sharedRef, live, sharedNow, disk>>
+TNext == TRef \/ TStart \/ TConstruct \/ TRewrite \/ TObserve
 TraceSpec == TInit /\ [][TNext]_tvars
 Accepted == TLCGet("stats").diameter - 1 = Len(Tr)
 =============================================================================
